@@ -238,6 +238,9 @@ fn variants_of(sc: &DiskScenario) -> Vec<(&'static str, Vec<u8>)> {
                     "bit_flip" => "bit_flip",
                     "nul_fill" => "nul_fill",
                     "duplicated_block" => "duplicated_block",
+                    "bom" => "bom",
+                    "crlf" => "crlf",
+                    "long_line" => "long_line",
                     _ => "original",
                 };
                 out.push((kind, crate::sval::unhex(h)));
@@ -262,6 +265,28 @@ fn variants_of(sc: &DiskScenario) -> Vec<(&'static str, Vec<u8>)> {
                     out.push(("bit_flip", b));
                 }
             }
+            // unusual but legal file contents: byte-order mark, CRLF line ends, one very long
+            // line, a lone BOM, trailing NULs, a truncated BOM
+            let mut bom = vec![0xEF, 0xBB, 0xBF];
+            bom.extend_from_slice(src);
+            out.push(("bom", bom));
+            out.push(("bom", vec![0xEF, 0xBB, 0xBF]));
+            out.push(("bom", vec![0xEF, 0xBB]));
+            let mut crlf = Vec::with_capacity(src.len() + 16);
+            for b in src {
+                if *b == b'\n' {
+                    crlf.push(b'\r');
+                }
+                crlf.push(*b);
+            }
+            crlf.extend_from_slice(b"\r\n");
+            out.push(("crlf", crlf));
+            let mut long = src.to_vec();
+            long.extend(std::iter::repeat(b'x').take(70_000));
+            out.push(("long_line", long));
+            let mut nuls = src.to_vec();
+            nuls.extend_from_slice(&[0, 0, 0, 0]);
+            out.push(("nul_fill", nuls));
             for _ in 0..(if *thorough { 32 } else { 8 }) {
                 if src.is_empty() {
                     break;
@@ -343,7 +368,7 @@ pub fn execute(sc: &DiskScenario, stats: &mut Stats) -> Outcome {
         if as_str.is_none() {
             stats.inc("probe_variant_not_utf8");
         }
-        let via_file = as_str.is_none() || vi % sc.via_file_every.max(1) == 0;
+        let via_file = as_str.is_none() || vi % sc.via_file_every.max(1) == 0 || matches!(kind, "bom" | "crlf" | "long_line");
         engine::set_step_limit(engine::steps() + budget);
         let res: Result<Result<(), tera::Error>, String> = if via_file {
             std::fs::write(&path, &bytes).expect("tmpfs write");
